@@ -256,9 +256,11 @@ func Verif_C14_RMDWriteStepQ() {
 	c14WriteStep(nx, []int{0, 1, rem - 1, rem, rem + 1, rem + 64, rem + 65, 130}[verifrt.Choose(0, 7)])
 }
 
-// Verif_C14_RMDWriteStepT: EVERY nx 0..63 and every |p| 0..130.
+// Verif_C14_RMDWriteStepT: EVERY nx 0..63 and |p| in {0,1,2,rem-1,rem,rem+1,rem+63,rem+64,rem+65,130}.
 func Verif_C14_RMDWriteStepT() {
-	c14WriteStep(verifrt.Choose(0, 63), verifrt.Choose(0, 130))
+	nx := verifrt.Choose(0, 63)
+	rem := 64 - nx
+	c14WriteStep(nx, []int{0, 1, 2, rem - 1, rem, rem + 1, rem + 63, rem + 64, rem + 65, 130}[verifrt.Choose(0, 9)])
 }
 
 // Verif_C14_RMDSumStep: Sum step for EVERY nx 0..63 (all tc with tc mod 64 = nx).
